@@ -248,6 +248,7 @@ func (s *Store) Flush() error {
 	for _, name := range cnames {
 		c := coll[name]
 		rnls[name] = c.rootAddRef()
+		verifYield("flush-pin")
 	}
 	defer func() {
 		for _, name := range cnames {
@@ -255,10 +256,12 @@ func (s *Store) Flush() error {
 		}
 	}()
 	for _, name := range cnames {
+		verifYield("flush-write")
 		if err := coll[name].write(rnls[name].root); err != nil {
 			return err
 		}
 	}
+	verifYield("flush-root")
 	return s.writeRoots(rnls)
 }
 
@@ -312,6 +315,7 @@ func (s *Store) Snapshot() (snapshot *Store) {
 			rootLock: collOrig.rootLock,
 			root:     collOrig.rootAddRef(),
 		}
+		verifYield("snap-pin")
 	}
 	return res
 }
